@@ -45,7 +45,14 @@ def main():
     pid = sys.argv[1]
     allchecks = "--all-checks" in sys.argv
     skipsuite = "--skip-suite" in sys.argv
-    src = "/tmp/seed_out/%s" % pid
+    srcroot = "/tmp/seed_out"
+    offset = 0
+    for i, a in enumerate(sys.argv):
+        if a == "--src":
+            srcroot = sys.argv[i + 1]
+        if a == "--offset":
+            offset = int(sys.argv[i + 1])
+    src = "%s/%s" % (srcroot, pid)
     ids = [pid]
     if allchecks:
         ids = [c["property_id"] for c in json.load(open("/verif/MANIFEST.json"))["checks"]]
@@ -99,12 +106,19 @@ def main():
                 res["demo_clean_tail"] = out[-600:]
         keep = res.get("builds") and res.get("demo_fails_when_patched") and res.get("demo_passes_on_clean") and (skipsuite or res.get("suite_passes"))
         res["kept"] = bool(keep)
-        dst = "/verif/seeded/%s-%s" % (pid, k)
+        dst = "/verif/seeded/%s-%s" % (pid, int(k) + offset)
         if keep:
             os.makedirs(dst, exist_ok=True)
             shutil.copy(patch, os.path.join(dst, "patch.diff"))
             if demo:
                 shutil.copy(demo, os.path.join(dst, os.path.basename(demo).replace("demo%s" % k, "demo")))
+            for extra in glob.glob(os.path.join(src, "demo%s*" % k)):
+                nb = os.path.basename(extra).replace("demo%s" % k, "demo", 1)
+                if not os.path.exists(os.path.join(dst, nb)):
+                    if os.path.isdir(extra):
+                        shutil.copytree(extra, os.path.join(dst, nb))
+                    else:
+                        shutil.copy(extra, os.path.join(dst, nb))
             meta["verification"] = {x: res.get(x) for x in ("builds", "suite_passes", "demo_fails_when_patched", "demo_passes_on_clean")}
             meta["detected_by"] = res.get("detected_by")
             meta["check_reports"] = {c: d["first"] for c, d in res.get("checks", {}).items() if d["violations"] > 0}
@@ -112,7 +126,7 @@ def main():
         summary.append(res)
         print(json.dumps({x: res.get(x) for x in ("property", "k", "builds", "suite_passes", "demo_fails_when_patched", "demo_passes_on_clean", "kept", "detected_by")}))
         sys.stdout.flush()
-    json.dump(summary, open("/tmp/seed_out/%s/eval.json" % pid, "w"), indent=1)
+    json.dump(summary, open("%s/eval.json" % src, "w"), indent=1)
 
 if __name__ == "__main__":
     main()
